@@ -684,14 +684,16 @@ class Predicate(metaclass=abc.ABCMeta):
             Returns:
                 New Primitive instance with individual predicates combined.
             """
+            # a disjunction constrains a table only if both sides do; a conjunction if either side does
+            keys = left.keys() & right.keys() if operator is Or else left.keys() | right.keys()
             return cls(
                 *(
                     operator(left[k], right[k])
-                    if k in left and k in right and hash(left[k]) != hash(right[k])
+                    if k in left and k in right and not identical(left[k], right[k])
                     else left[k]
                     if k in left
-                    else right
-                    for k in left.keys() | right.keys()
+                    else right[k]
+                    for k in keys
                 )
             )
 
